@@ -245,6 +245,27 @@ Proof.
 Qed.
 Print Assumptions C13_predict_nonvacuous.
 
+(* (11) the correlation r_ab goes through type_a._clip_r (g_fit_clip_r, regenerated).  Over the reals
+   |r_ab| <= 1 (Cauchy-Schwarz), so the clip is the identity and (1)-(3) keep their statements; in every
+   binary64 run (any oracle table) that returns, the r_ab handed to a.set_correlation is _clip_r of the
+   computed quotient: that quotient itself, or exactly +-1 (which set_correlation accepts) when rounding
+   pushed it just outside [-1,1] (x far from zero; finding C11-6). *)
+Theorem C13_clip_identity_over_reals :
+  (forall r, Rabs r <= 1 -> g_fit_clip_r RNum r = Ok r) /\
+  (forall S Stt Sx sa sb, 0 < S -> 0 < Stt -> 0 < sa -> 0 < sb ->
+     sa * sa = (1 + Sx * Sx / (S * Stt)) / S -> sb * sb = 1 / Stt ->
+     Rabs (- Sx / (S * Stt * sa * sb)) <= 1).
+Proof. split; [exact fit_clip_R|exact r_ab_le1]. Qed.
+
+(* the line_fit_wtls wrapper re-declares the correlation r of the type-B (a, b) as _clip_r(r): over the reals
+   the identity on [-1,1] *)
+Theorem C13_wtls_r_identity_over_reals : forall r, Rabs r <= 1 -> g_line_fit_wtls_r RNum r = Ok r.
+Proof. exact wtls_r_R. Qed.
+Print Assumptions C13_wtls_r_identity_over_reals.
+Print Assumptions C13_clip_identity_over_reals.
+
+(* the binary64 half of (11), C13_r_ab_clipped_float, is at the end of this file *)
+
 (* non-vacuity: a concrete data set meeting the hypotheses of the totality theorems *)
 Definition ex_l : list pt := [(0, 1, 1); (1, 3, 2); (2, 2, 1); (4, 6, / 2)].
 
@@ -257,3 +278,27 @@ Proof.
   - unfold wDet, wS, wSx, wSxx, mSxx, mSx, Sw, Sm, sumf, ex_l, px, py, pu. simpl. split; lra.
 Qed.
 Print Assumptions C13_nonvacuous.
+
+(* (11), binary64 half *)
+From Coq Require Import PrimFloat.
+Local Close Scope R_scope.
+Theorem C13_r_ab_clipped_float :
+  forall tbl,
+  (forall x y fs, g_line_fit (FNum.FNum tbl) x y = Ok fs ->
+     exists r0, g_fit_clip_r (FNum.FNum tbl) r0 = Ok (fs_r fs) /\
+                (fs_r fs = r0 \/ fs_r fs = 1%float \/ fs_r fs = (-1)%float)) /\
+  (forall x y u dof fs, g_line_fit_wls (FNum.FNum tbl) x y u dof = Ok fs ->
+     exists r0, g_fit_clip_r (FNum.FNum tbl) r0 = Ok (fs_r fs) /\
+                (fs_r fs = r0 \/ fs_r fs = 1%float \/ fs_r fs = (-1)%float)) /\
+  (forall x y u dof fs, g_line_fit_rwls (FNum.FNum tbl) x y u dof = Ok fs ->
+     exists r0, g_fit_clip_r (FNum.FNum tbl) r0 = Ok (fs_r fs) /\
+                (fs_r fs = r0 \/ fs_r fs = 1%float \/ fs_r fs = (-1)%float)) /\
+  (forall r c, g_line_fit_wtls_r (FNum.FNum tbl) r = Ok c ->
+     g_fit_clip_r (FNum.FNum tbl) r = Ok c /\ (c = r \/ c = 1%float \/ c = (-1)%float)) /\
+  (PrimFloat.ltb 1%float (PrimFloat.abs 1%float) = false /\
+   PrimFloat.ltb 1%float (PrimFloat.abs (-1)%float) = false).
+Proof.
+  intros tbl. split; [exact (ols_r_clipped tbl)|]. split; [exact (wls_r_clipped tbl)|].
+  split; [exact (rwls_r_clipped tbl)|]. split; [exact (wtls_r_clipped tbl)|exact clipped_one_accepted].
+Qed.
+Print Assumptions C13_r_ab_clipped_float.
